@@ -170,9 +170,54 @@ func andAtoms(e ast.Expr) []ast.Expr {
 	return []ast.Expr{unparen(e)}
 }
 
-// copiedWhenSettable: `if v = <call>; v.CanSet() { v = v.Convert(v.Type()) }` or dup(<call>).
+// copiedWhenSettable: `if v = <call>; v.CanSet() { v = v.Convert(v.Type()) }`, or
+// `v := <call>` followed in the same block by `if v.CanSet() { v = v.Convert(v.Type()) }`, or dup(<call>).
 func copiedWhenSettable(info *types.Info, scope ast.Node, call *ast.CallExpr) bool {
 	ok := false
+	ast.Inspect(scope, func(n ast.Node) bool {
+		blk, isBlk := n.(*ast.BlockStmt)
+		if !isBlk {
+			return true
+		}
+		for i, st := range blk.List {
+			as, isAs := st.(*ast.AssignStmt)
+			if !isAs || len(as.Lhs) != 1 || len(as.Rhs) != 1 || unparen(as.Rhs[0]) != ast.Expr(call) || identOf(as.Lhs[0]) == nil {
+				continue
+			}
+			v := info.Defs[identOf(as.Lhs[0])]
+			if v == nil {
+				v = info.Uses[identOf(as.Lhs[0])]
+			}
+			if i+1 >= len(blk.List) {
+				continue
+			}
+			ifs, isIf := blk.List[i+1].(*ast.IfStmt)
+			if !isIf || ifs.Init != nil {
+				continue
+			}
+			cond, isCall := unparen(ifs.Cond).(*ast.CallExpr)
+			if !isCall {
+				continue
+			}
+			sel, isSel := unparen(cond.Fun).(*ast.SelectorExpr)
+			if !isSel || sel.Sel.Name != "CanSet" || identOf(sel.X) == nil || info.Uses[identOf(sel.X)] != v {
+				continue
+			}
+			for _, b := range ifs.Body.List {
+				if a2, isA2 := b.(*ast.AssignStmt); isA2 && len(a2.Lhs) == 1 && len(a2.Rhs) == 1 && identOf(a2.Lhs[0]) != nil && info.Uses[identOf(a2.Lhs[0])] == v {
+					if c2, isC2 := unparen(a2.Rhs[0]).(*ast.CallExpr); isC2 {
+						if s2, isS2 := unparen(c2.Fun).(*ast.SelectorExpr); isS2 && s2.Sel.Name == "Convert" {
+							ok = true
+						}
+					}
+				}
+			}
+		}
+		return true
+	})
+	if ok {
+		return true
+	}
 	ast.Inspect(scope, func(n ast.Node) bool {
 		switch x := n.(type) {
 		case *ast.CallExpr:
